@@ -170,8 +170,26 @@ def _delta_mode(d, mode):
 
 
 def _arg_modes(spec, mode):
+    name = getattr(spec, 'macroname', None)
+    if name in docgen.CHAINED_EFFECTS and _chained_db_spec(spec):
+        return [{'T': (False, None), 'M': (True, None), '=': mode}[x] for x in docgen.CHAINED_EFFECTS[name]]
     return [_delta_mode(getattr(a, 'parsing_state_delta', None), mode)
             for a in (getattr(spec, 'arguments_spec_list', None) or [])]
+
+
+def _chained_db_spec(spec):
+    """is it a specification object of docgen's 'chained' database (whose meaning is tabulated in docgen)?"""
+    db = docgen._ctx_cache.get('chained')
+    if db is None:
+        return False
+    name = getattr(spec, 'macroname', None) or getattr(spec, 'environmentname', None)
+    for getter in (db.get_macro_spec, db.get_environment_spec):
+        try:
+            if getter(name) is spec:
+                return True
+        except Exception:
+            pass
+    return False
 
 
 def _check(n, mode, path, table=None):
@@ -207,8 +225,11 @@ def _check(n, mode, path, table=None):
             if r:
                 return r
     if k == 'E':
-        bm = (True, None) if getattr(n.spec, 'is_math_mode', None) else \
-            _delta_mode(getattr(n.spec, 'body_parsing_state_delta', None), mode)
+        if getattr(n.spec, 'environmentname', None) in docgen.CHAINED_EFFECTS and _chained_db_spec(n.spec):
+            bm = (True, None) if docgen.CHAINED_EFFECTS[n.spec.environmentname] == 'M' else mode
+        else:
+            bm = (True, None) if getattr(n.spec, 'is_math_mode', None) else \
+                _delta_mode(getattr(n.spec, 'body_parsing_state_delta', None), mode)
         return _check(n.nodelist, bm, path + ['body'], table)
     return None
 
